@@ -51,6 +51,26 @@ def suppressing(item: ast.withitem) -> bool:
     return isinstance(item.context_expr, ast.Call) and dotted(item.context_expr.func) == "attempt"
 
 
+def eager_exception_uses(body, name):
+    """uses of the caught exception `name` in `body` that run user code now: anything but handing it to
+    LOGGER.<level>(exc) / exc_info=exc (logging formats inside Handler.emit, which contains formatting errors),
+    re-raising it, `raise .. from exc`, or an identity test"""
+    out = []
+    for s in body:
+        for x in ast.walk(s):
+            if not (isinstance(x, ast.Name) and x.id == name and isinstance(x.ctx, ast.Load)):
+                continue
+            par = parent(x)
+            lazy_log = isinstance(par, ast.Call) and x in par.args and isinstance(par.func, ast.Attribute) and norm(par.func.value).lower().endswith("logger") and par.func.attr in ("exception", "error", "warning", "info", "debug", "critical")
+            kw_exc_info = isinstance(par, ast.keyword) and par.arg == "exc_info"
+            reraised = isinstance(par, ast.Raise)
+            identity = isinstance(par, ast.Compare) and all(isinstance(o, (ast.Is, ast.IsNot)) for o in par.ops)
+            if lazy_log or kw_exc_info or reraised or identity:
+                continue
+            out.append((x, par))
+    return out
+
+
 def run(repo: Repo, rep: Report, tier: str) -> None:
     rep.rule("notify-contained", "trigger(): every bound-handler invocation is inside a try whose catch-all handler re-raises only for intervention events")
     rep.rule("handler-total", "trigger()'s except body cannot itself raise on user-supplied objects (getattr with default only, no calls on them)")
@@ -171,18 +191,9 @@ def run(repo: Repo, rep: Report, tier: str) -> None:
     # code too. Handing it to LOGGER.<level>(exc) is safe (logging formats the record inside Handler.emit, which
     # contains formatting errors); evaluating it here - f-string, str(), a formatting helper, a truth test - is not
     if h.name:
-        for s in h.body:
-            for x in ast.walk(s):
-                if not (isinstance(x, ast.Name) and x.id == h.name and isinstance(x.ctx, ast.Load)):
-                    continue
-                n_tot += 1
-                par = parent(x)
-                lazy_log = isinstance(par, ast.Call) and x in par.args and isinstance(par.func, ast.Attribute) and norm(par.func.value).lower().endswith("logger") and par.func.attr in ("exception", "error", "warning", "info", "debug", "critical")
-                kw_exc_info = isinstance(par, ast.keyword) and par.arg == "exc_info"
-                reraised = isinstance(par, ast.Raise)
-                if lazy_log or kw_exc_info or reraised:
-                    continue
-                rep.fail("handler-total", fq, enclosing(x, (ast.stmt,)) or x, f"the exception raised by the user's handler is evaluated inside the except body (`{norm(par)[:60]}`): str() / repr() / formatting / truth-testing it runs the user's __str__ / __repr__ / __bool__, and if that raises the failure of a notification handler leaves trigger() after all (only LOGGER.<level>({h.name}) defers the formatting to logging, which contains such errors)", mod=ev, node=x)
+        for x, par in eager_exception_uses(h.body, h.name):
+            rep.fail("handler-total", fq, enclosing(x, (ast.stmt,)) or x, f"the exception raised by the user's handler is evaluated inside the except body (`{norm(par)[:60]}`): str() / repr() / formatting / truth-testing it runs the user's __str__ / __repr__ / __bool__, and if that raises the failure of a notification handler leaves trigger() after all (only LOGGER.<level>({h.name}) defers the formatting to logging, which contains such errors)", mod=ev, node=x)
+        n_tot += sum(1 for s in h.body for x in ast.walk(s) if isinstance(x, ast.Name) and x.id == h.name)
     rep.ok("handler-total", f"{fq} :: except body scanned", f"{n_tot} uses of user objects")
 
     # ---- abort restored -----------------------------------------------------------------------
@@ -391,6 +402,8 @@ def run(repo: Repo, rep: Report, tier: str) -> None:
     rep.floor("uses of the handler's iterable in _wrap_handler", check_wrap_handler_uses(repo, rep), 1)
     check_logging_total(repo, rep)
     check_locks_released(repo, rep)
+    check_subassociation_released(repo, rep)
+    check_exception_not_formatted(repo, rep, kinds)
     from ..delegate import delegate
     rep.rule("identity-exception-rejects", "an exception raised by the EVT_USER_ID handler rejects the association; only 'no handler bound' (NotImplementedError) accepts (C13's identity-verdict)")
     delegate(repo, rep, tier, "C13", ("identity-verdict",), "identity-exception-rejects", "an exception the user-identity handler raises is turned into an acceptance instead of the documented A-ASSOCIATE-RJ (0x02, 0x02, 0x01): the association is established for a peer whose identity check failed")
@@ -629,3 +642,101 @@ def check_wrap_handler_uses(repo: Repo, rep: Report, rule: str = "generator-adva
         ok = iterates and in_guarded_body
         rep.check(ok, rule, fq, enclosing(x, (ast.stmt,)) or x, f"`{norm(par)[:50]}` uses the object the user's handler returned for something other than iterating it inside the guarded try: for a handler that returns a list / zip / map instead of a generator this raises (AttributeError) outside the `except Exception`, so the handler's outcome is not reported as a result - the association is aborted instead of answering", mod=sc, node=x)
     return n
+
+
+def check_subassociation_released(repo: Repo, rep: Report) -> None:
+    """An SCP that opens an association of its own for an operation (C-MOVE: the association with the move
+    destination) owns it: once it is established, every way the function returns - the final response after a
+    handler exception included - passes its release() or abort(). Otherwise what the destination sees (released
+    vs. left to time out) depends on whether the user's handler raised."""
+    from ..cfg import CFG
+    from .c27 import pkg_modules
+
+    rep.rule("subassociation-released", "an association a service class opened itself (ae.associate) is released or aborted on every return once it is established")
+    n = 0
+    for short, m in pkg_modules(repo):
+        if not short.startswith("service_class"):
+            continue
+        for a in ast.walk(m.tree):
+            if not (isinstance(a, ast.Assign) and len(a.targets) == 1 and isinstance(a.targets[0], ast.Name) and isinstance(a.value, ast.Call) and isinstance(a.value.func, ast.Attribute) and a.value.func.attr == "associate"):
+                continue
+            fn = enclosing(a, (ast.FunctionDef,))
+            if fn is None:
+                continue
+            name = a.targets[0].id
+            fq = f"{short}.{qualname(a)}"
+            cfg = CFG(fn)
+            tests = [nd for nd in cfg.nodes if nd.kind == "test" and isinstance(nd.ast, ast.If) and norm(nd.ast.test) in (f"not {name}.is_established", f"{name}.is_established")]
+            if len(tests) != 1:
+                rep.defer(f"{fq}: {len(tests)} tests of {name}.is_established after associate() - the established branch is not identified")
+                continue
+            n += 1
+            tnode = tests[0]
+            want = "false" if norm(tnode.ast.test).startswith("not ") else "true"
+
+            def via(nd, name=name):
+                x = nd.ast
+                if x is None or nd.kind not in ("stmt", "finally"):
+                    return False
+                return any(isinstance(c, ast.Call) and norm(c.func) in (f"{name}.release", f"{name}.abort") for c in walk_no_nested(x))
+
+            ok, path = True, []
+            for nxt, lab in tnode.succ:
+                if lab != want:
+                    continue
+                if via(nxt):
+                    continue
+                ok, path = cfg.must_pass(nxt, via, {cfg.exit.id}, labels_excluded=("exc",)) if nxt.id != cfg.exit.id else (False, [nxt])
+                if not ok:
+                    break
+            where = " -> ".join(f"{p_.line}" for p_ in path[-6:] if p_.line)
+            rep.check(ok, "subassociation-released", fq, enclosing(path[-2].ast, (ast.stmt,)) if len(path) >= 2 and path[-2].ast is not None and not isinstance(path[-2].ast, ast.stmt) else (path[-2].ast if len(path) >= 2 and path[-2].ast is not None else a), f"{fn.name}() returns (lines {where}) with the association `{name}` it opened still established: neither {name}.release() nor {name}.abort() is on that path, so the peer of that association is left to time out - on the path taken after a handler exception this makes the exchange depend on whether the handler raised", mod=m, node=path[-2].ast if len(path) >= 2 and path[-2].ast is not None else a)
+    rep.floor("associations opened by a service class", n, 1)
+
+
+def check_exception_not_formatted(repo: Repo, rep: Report, kinds: dict) -> None:
+    """The exception a user's handler raised is a user object: its __str__ / __repr__ / __format__ / __bool__ are
+    user code. Where the library catches it - trigger()'s except body, the catch-all around an intervention
+    trigger, attempt.__exit__ - it may hand the object to LOGGER.<level>(exc) (logging formats it later, inside
+    Handler.emit, which contains errors), re-raise it or test its identity; formatting it there (f-string, str(),
+    %) runs user code *before* the documented failure response is sent, and if that raises the exception escapes
+    into the protocol machinery after all. Read from the module source as written (logging statements are not part
+    of the canonical tree the other rules see)."""
+    from .c27 import pkg_modules
+
+    rep.rule("exception-opaque", "where a handler's exception is caught it is only logged lazily, re-raised or identity-tested - never formatted or truth-tested before the failure response")
+    n = 0
+    for short, m in pkg_modules(repo):
+        if short.startswith(("apps.", "tests.", "benchmarks.")):
+            continue
+        raw = ast.parse(m.src)
+        for p_ in ast.walk(raw):
+            for c_ in ast.iter_child_nodes(p_):
+                c_._parent = p_  # type: ignore[attr-defined]
+        for t in ast.walk(raw):
+            if isinstance(t, ast.FunctionDef) and t.name == "__exit__" and len(t.args.args) >= 3 and any(isinstance(c, ast.Call) and (dotted(c.func) or "").endswith("send_msg") for c in ast.walk(t)):
+                n += 1
+                for x_, par_ in eager_exception_uses(t.body, t.args.args[2].arg):
+                    rep.fail("exception-opaque", f"{short}.{t.name}", enclosing(x_, (ast.stmt,)) or x_, f"the exception an intervention handler raised is evaluated in __exit__ (`{norm(par_)[:60]}`): that runs the user's __str__ / __repr__ / __bool__, and if it raises no failure response is sent and the exception escapes the with block", mod=m, node=x_)
+            if not isinstance(t, ast.Try):
+                continue
+            fn = enclosing(t, (ast.FunctionDef,))
+            user = short == "events" and fn is not None and fn.name == "trigger"
+            what = "a bound handler"
+            for c in [c for s_ in t.body for c in ast.walk(s_) if isinstance(c, ast.Call)]:
+                if (dotted(c.func) or "") in ("evt.trigger", "trigger") and len(c.args) >= 2:
+                    ename = (dotted(c.args[1]) or norm(c.args[1])).split(".")[-1]
+                    if kinds.get(ename) == "InterventionEvent":
+                        user, what = True, f"the {ename} handler"
+            if not user:
+                continue
+            for h in t.handlers:
+                if not h.name or not (set(handler_types(h)) & CATCH_ALL):
+                    continue
+                n += 1
+                fq = f"{short}.{fn.name if fn is not None else '<module>'}"
+                for x_, par_ in eager_exception_uses(h.body, h.name):
+                    rep.fail("exception-opaque", fq, enclosing(x_, (ast.stmt,)) or x_, f"the exception {what} raised is evaluated inside the except body (`{norm(par_)[:60]}`): formatting / str() / truth-testing it runs the user's __str__ / __repr__ / __bool__ before the documented failure response is sent, and if that raises the exception escapes into the protocol machinery after all (LOGGER.<level>({h.name}) defers the formatting to logging, which contains such errors)", mod=m, node=x_)
+    rep.floor("except bodies that receive a handler's exception", n, 10)
+    if n:
+        rep.ok("exception-opaque", f"pynetdicom :: {n} except bodies / __exit__ receiving a handler's exception", "only lazy logging, re-raise, identity tests")
